@@ -311,6 +311,7 @@ R.contract(
 _K = R.contracts["H3Connection._handle_request_or_push_frame"]
 _K.requires += ["h3_writable(self)", "frame_data is not None or frame_type == FrameType.HEADERS", "h3_hdr_call_ok(self, stream.stream_id, frame_data is not None)"]
 _K.raises.pop("BufferReadError", None)
+_K.raises.setdefault("ProtocolError", None)  # any other HTTP/3 protocol error (with the fix: FrameError of a truncated PUSH_PROMISE)
 _K.modifies += _DEC_MOD
 _K.ensures += ["h3_writable(self)", "h3_pending_minus(self, stream.stream_id)"]
 _K.on_raise["StreamBlocked"] = ["h3_writable(self)", "frame_data is not None", "h3_pending_plus(self, stream.stream_id)", "stream.stream_id in self._decoder.g_pending"]
